@@ -4,6 +4,7 @@ import KavaVerif.Props.C03
 #print axioms KV.PB.C03_send_exact
 #print axioms KV.PB.C03_send_self_noop
 #print axioms KV.PB.C03_send_never_panics
+#print axioms KV.PB.C03_send_succeeds_iff
 #print axioms KV.PB.C03_inv_mint
 #print axioms KV.PB.C03_mint_exact
 #print axioms KV.PB.C03_inv_burn
